@@ -9,19 +9,26 @@ PAIRS = {(1, 2), (1, 3), (2, 3)}
 
 
 def config(name):
-    base = dict(Scenario="tmpl", NObj=3, Targets={1, 2, 3}, HeraldNs={0, 1})
+    base = dict(Scenario="tmpl", HeraldNs={0, 1})
     if name == "reuse_rejects":      # the same sub-circuit added several times, edited afterwards; every invalid call on parents WITH ancillas
         base["HeraldNs"] = {1}
-        return cc.consts_of(**base, PNu=3, Numeric=False, MaxLen=5, MaxRej=1, MaxAnc=4, AddPairs=PAIRS, TmplLoss=False, MaxHer=(0, 1, 1), MaxAdds=2,
+        return cc.consts_of(**base, NObj=3, Targets={1, 2, 3}, PNu=3, Numeric=False, MaxLen=5, MaxRej=1, MaxAnc=4, AddPairs=PAIRS, TmplLoss=False, MaxHer=(0, 1, 1), MaxAdds=2,
                             Kinds={"herald", "add", "edit", "bs", "loss", "swap"}, Ordered=True, BadModes={-1, 99, 91}, Rids={1}, Convs={"H"},
                             Lqs={0, 1}, LossQs={1}, BadVals=True, SwapLevel=3, MaxComp=1)
     if name == "reuse_rejects_big":  # thorough: both herald numbers, three additions
-        return cc.consts_of(**base, PNu=3, Numeric=False, MaxLen=5, MaxRej=1, MaxAnc=4, AddPairs=PAIRS, TmplLoss=False, MaxHer=(0, 1, 1), MaxAdds=3,
+        return cc.consts_of(**base, NObj=3, Targets={1, 2, 3}, PNu=3, Numeric=False, MaxLen=5, MaxRej=1, MaxAnc=4, AddPairs=PAIRS, TmplLoss=False, MaxHer=(0, 1, 1), MaxAdds=3,
                             Kinds={"herald", "add", "edit", "bs", "loss", "swap"}, Ordered=True, BadModes={-1, 99, 91}, Rids={1}, Convs={"H"},
                             Lqs={0, 1}, LossQs={1}, BadVals=True, SwapLevel=3, MaxComp=1)
     if name == "reuse_numeric":      # TLC carries sem: a later edit of a sub-circuit must leave sem[parent] untouched
-        return cc.consts_of(**base, PNu=3, Numeric=True, MaxLen=4, MaxRej=1, MaxAnc=3, AddPairs={(1, 2), (1, 3)}, TmplLoss=True, MaxHer=(0, 1, 0),
+        return cc.consts_of(**base, NObj=3, Targets={1, 2, 3}, PNu=3, Numeric=True, MaxLen=4, MaxRej=1, MaxAnc=3, AddPairs={(1, 2), (1, 3)}, TmplLoss=True, MaxHer=(0, 1, 0),
                             MaxAdds=2, Kinds={"herald", "add", "edit", "probeall"}, Ordered=True, BadModes={99})
+    if name == "copies_tmpl":        # copies of parents that already own ancillas; heralded additions to the copy, then edits of the ORIGINAL (and vice versa)
+        return cc.consts_of(**base, NObj=4, Targets={1, 2, 3, 4}, PNu=3, Numeric=False, MaxLen=7, MaxRej=0, MaxAnc=4, AddPairs={(1, 2), (1, 3), (4, 2), (4, 3)},
+                            TmplLoss=False, MaxHer=(0, 1, 1, 0), MaxAdds=3, Kinds={"herald", "add", "copy", "probeall", "bs"}, Ordered=False, Rids={1}, Convs={"H"},
+                            Lqs={0}, MaxComp=2)
+    if name == "copies_pair":        # a + b with an empty left operand, copies, then edits of either side
+        return cc.consts_of(Scenario="pair", NObj=4, Targets={1, 2, 3, 4}, PNu=2, Numeric=False, MaxLen=6, MaxRej=0, Kinds={"bs", "ps", "plus", "copy", "loss"},
+                            Rids={1}, Convs={"Rx", "H"}, Lqs={0}, Pids={1, 3}, LossQs={1})
     if name == "single_rejects":     # every invalid-argument class on a plain circuit
         return cc.consts_of(NUs={2, 3}, Numeric=False, MaxLen=3, MaxRej=2, Kinds={"bs", "ps", "loss", "bar", "swap", "u", "herald"},
                             BadModes={-1, 99, 90, 91}, Rids={1}, Convs={"Rx"}, Lqs={0, 1}, Pids={1}, LossQs={1}, BadVals=True, SwapLevel=3,
@@ -159,6 +166,10 @@ def run(tier):
                   {"scenario": "tmpl", "numeric": True, "pnu": 3, "tmpl_loss": True}, nontrivial_fn=has_reject_or_reuse)
     cc.dump_phase(chk, PID, "single_rejects", config("single_rejects"), ["InputModesInv"], PROPS, MINE, 1.0 if th else 0.25, 1200,
                   {"scenario": "single", "numeric": False}, keep=lambda t: '"rej"' in t, nontrivial_fn=has_reject_or_reuse)
+    cc.sim_phase(chk, PID, "copies_tmpl", config("copies_tmpl"), MINE | {"U", "n_modes", "heralds", "ancilla_count", "compile", "valid_call_raised"}, 9000 if th else 1500, 8,
+                 {"scenario": "tmpl", "numeric": False, "pnu": 3, "tmpl_loss": False}, nontrivial_fn=lambda r: any(e[1] in ("copy", "plus") for e in r["prog"]))
+    cc.sim_phase(chk, PID, "copies_pair", config("copies_pair"), MINE | {"U", "dim", "n_modes", "compile", "valid_call_raised"}, 9000 if th else 1500, 7,
+                 {"scenario": "pair", "numeric": False, "pnu": 2}, nontrivial_fn=lambda r: any(e[1] in ("copy", "plus") for e in r["prog"]))
     other_operations(chk, th)
     cc.script_phase(chk, PID, "findings", cc.load_corpus(PID), MINE)
     cc.repo_tests_phase(chk, PID, MINE, ["tests/qubit", "tests/interferometers"] + (["tests/sdk", "tests/tomography", "tests/emulator/simulator_test.py"] if th else []))
